@@ -89,6 +89,20 @@ namespace verif
             return -1;
         }
 
+        // memory_arena driven directly (fam=arena)
+        virtual bool is_arena()
+        {
+            return false;
+        }
+        virtual void arena_alloc(void*& mem, std::size_t& size) {}
+        virtual void arena_dealloc() {}
+        virtual void arena_counts(long long& used, long long& cached, long long& cap, long long& next) {}
+        virtual bool arena_owns(const void*)
+        {
+            return false;
+        }
+        virtual void arena_swap(ISubject&) {}
+
         virtual ISubject* move_to(void* where)     = 0; // move construction; *this becomes moved-from
         virtual void      assign_from(ISubject& other) = 0; // *this = std::move(other)
         virtual void      destroy()                = 0;
@@ -542,6 +556,124 @@ namespace verif
         }
     };
 
+    // ---- memory_arena driven directly ------------------------------------------------------------------
+    template <class Src, bool Cached>
+    struct ArenaSubj : ISubject
+    {
+        using block_alloc = fm::make_block_allocator_t<typename Src::type>;
+        using A           = fm::memory_arena<block_alloc, Cached>;
+        A* a              = nullptr;
+        ArenaSubj(void* where, int src, std::size_t bs)
+        {
+            a = construct<A>(where, src, Src{}, bs);
+        }
+        const char* family() const override
+        {
+            return "arena";
+        }
+        void* addr() override
+        {
+            return a;
+        }
+        std::size_t node_size() override
+        {
+            return 0;
+        }
+        std::size_t link_bytes() override
+        {
+            return 0;
+        }
+        std::size_t header() override
+        {
+            return fm::detail::memory_block_stack::implementation_offset();
+        }
+        void* an(std::size_t, std::size_t) override
+        {
+            return nullptr;
+        }
+        void* aa(std::size_t, std::size_t, std::size_t) override
+        {
+            return nullptr;
+        }
+        void dn(void*, std::size_t, std::size_t) override {}
+        void da(void*, std::size_t, std::size_t, std::size_t) override {}
+        void* tn(std::size_t, std::size_t) override
+        {
+            return nullptr;
+        }
+        void* ta(std::size_t, std::size_t, std::size_t) override
+        {
+            return nullptr;
+        }
+        bool tdn(void*, std::size_t, std::size_t) override
+        {
+            return false;
+        }
+        bool tda(void*, std::size_t, std::size_t, std::size_t) override
+        {
+            return false;
+        }
+        Scal scal(std::size_t) override
+        {
+            Scal s;
+            s.ncap = static_cast<long long>(a->next_block_size());
+            s.asz  = static_cast<long long>(a->size());
+            return s;
+        }
+        void maxes(std::size_t& mn, std::size_t& ma, std::size_t& mal) override
+        {
+            mn = ma = mal = 0;
+        }
+        bool is_arena() override
+        {
+            return true;
+        }
+        void arena_alloc(void*& mem, std::size_t& size) override
+        {
+            auto b = a->allocate_block();
+            mem    = b.memory;
+            size   = b.size;
+        }
+        void arena_dealloc() override
+        {
+            a->deallocate_block();
+        }
+        void arena_counts(long long& used, long long& cached, long long& cap, long long& next) override
+        {
+            used   = static_cast<long long>(a->size());
+            cached = static_cast<long long>(a->cache_size());
+            cap    = static_cast<long long>(a->capacity());
+            next   = static_cast<long long>(a->next_block_size());
+        }
+        bool arena_owns(const void* p) override
+        {
+            return a->owns(p);
+        }
+        void shrink() override
+        {
+            a->shrink_to_fit();
+        }
+        void arena_swap(ISubject& other) override
+        {
+            using std::swap;
+            swap(*a, *static_cast<ArenaSubj&>(other).a);
+        }
+        ISubject* move_to(void* where) override
+        {
+            auto d = new ArenaSubj(*this);
+            d->a   = ::new (where) A(std::move(*a));
+            return d;
+        }
+        void assign_from(ISubject& other) override
+        {
+            *a = std::move(*static_cast<ArenaSubj&>(other).a);
+        }
+        void destroy() override
+        {
+            a->~A();
+        }
+    };
+
     // ---- static_allocator (RawAllocator over caller storage; copyable, not movable state) ---------
     struct StaticSubj : SubjBase<fm::static_allocator, StaticSubj>
     {
@@ -583,6 +715,7 @@ namespace verif
     ISubject* make_coll(const Exec& x, void* where, int src);
     ISubject* make_stack(const Exec& x, void* where, int src);
     ISubject* make_iter(const Exec& x, void* where, int src);
+    ISubject* make_arena(const Exec& x, void* where, int src);
     inline ISubject* make_subject(const Exec& x, void* where, int src)
     {
         std::string fam = x.str("fam");
@@ -595,6 +728,8 @@ namespace verif
             s = make_stack(x, where, src);
         else if (fam == "iter")
             s = make_iter(x, where, src);
+        else if (fam == "arena")
+            s = make_arena(x, where, src);
         else if (fam == "static")
             s = new StaticSubj(where, src);
         if (s)
